@@ -37,6 +37,7 @@ structure BThread where
   pc   : BPc
   todo : List BOp              -- head = operation in progress (or next one when idle)
   res  : List (BOp × Nat)      -- finished operations with their results
+  prog : List BOp              -- ghost: the thread's whole program (never changes)
 deriving Repr
 
 /-- shared state; `wins` and `ndec` are ghost counters (successful CAS, executed fetch-decs) -/
@@ -56,8 +57,8 @@ deriving Repr
 
 /-- the operation in progress returns `v`: the thread pauses (or ends after its last operation) -/
 def bfin (th : BThread) (op : BOp) (v : Nat) : BThread :=
-  { pc := match th.todo.tail with | [] => .done | _ :: _ => .idle,
-    todo := th.todo.tail, res := th.res ++ [(op, v)] }
+  { th with pc := (match th.todo.tail with | [] => .done | _ :: _ => .idle),
+            todo := th.todo.tail, res := th.res ++ [(op, v)] }
 
 def bset (s : BState) (t : Nat) (sh : BShared) (th : BThread) : BState := ⟨sh, s.thr.set t th⟩
 
@@ -88,7 +89,7 @@ def bstep (countable : Bool) (s : BState) (t : Nat) : BState :=
     | .done => s
 
 def binit (count : Int) (progs : List (List BOp)) : BState :=
-  ⟨⟨0, false, 0, count, 0, 0⟩, progs.map fun p => ⟨.idle, p, []⟩⟩
+  ⟨⟨0, false, 0, count, 0, 0⟩, progs.map fun p => ⟨.idle, p, [], p⟩⟩
 
 def brun (countable : Bool) (count : Int) (progs : List (List BOp)) (sched : List Nat) : BState :=
   sched.foldl (bstep countable) (binit count progs)
